@@ -479,14 +479,16 @@ class Run:
         for i, v in enumerate(self.violations):
             path = os.path.join(REPLAYS, "%s_%s_%d_%d.json" % (self.pid, self.tier, self.seed, i))
             with open(path, "w") as f:
-                json.dump(dict(property=self.pid, signature=v["signature"], what=v["what"], replay=v["replay"]), f, indent=1, default=str)
+                json.dump(dict(property=self.pid, tier=self.tier, seed=self.seed, depth=getattr(self, "depth", self.tier), signature=v["signature"], what=v["what"],
+                               replay=v["replay"], how_to_replay="./check --replay <this file>  (re-runs the deterministic check with this seed and tier on the current tree and looks for this signature)"),
+                          f, indent=1, default=str)
             print("VIOLATION property=%s replay=%s %s" % (self.pid, path, v["what"][:300].replace("\n", " ")))
             nviol += 1
         if self.broken and not self.violations:
             # something no longer checks, and the search found no concrete failing input
             path = os.path.join(REPLAYS, "%s_%s_%d_broken.json" % (self.pid, self.tier, self.seed))
             with open(path, "w") as f:
-                json.dump(dict(property=self.pid, no_longer_checks=[dict(name=n, detail=d) for n, d in self.broken],
+                json.dump(dict(property=self.pid, tier=self.tier, seed=self.seed, no_longer_checks=[dict(name=n, detail=d) for n, d in self.broken],
                                note="no concrete failing input was found by the search; the property is no longer shown to hold"),
                           f, indent=1, default=str)
             names = ",".join(n for n, _ in self.broken)[:200]
